@@ -16,7 +16,7 @@ pub fn fmovie_json(m: &LFragMovie) -> Value {
         "tracks": m.tracks.iter().map(|t| json!({"id": t.id, "codec": format!("{:?}", t.codec), "timescale": t.timescale, "trex_default_duration": t.trex_default_duration})).collect::<Vec<_>>(),
         "fragments": m.fragments.iter().map(|f| f.iter().map(|r| json!({"track": r.track_id, "base": format!("{:?}", r.base), "frag_default_duration": r.frag_default_duration,
             "per_sample_durations": r.per_sample_durations, "cts_version": r.cts_version, "data_offset": r.data_offset, "data_before_moof": r.data_before_moof,
-            "tfdt_version": r.tfdt_version, "base_time": r.base_time, "samples": r.samples.iter().map(|s| json!([s.size, s.delta, s.cts])).collect::<Vec<_>>()})).collect::<Vec<_>>()).collect::<Vec<_>>()})
+            "tfdt_version": r.tfdt_version, "base_time": r.base_time, "no_trun": r.no_trun, "samples": r.samples.iter().map(|s| json!([s.size, s.delta, s.cts])).collect::<Vec<_>>()})).collect::<Vec<_>>()).collect::<Vec<_>>()})
 }
 
 pub fn compare_pub<R: std::io::Read + std::io::Seek>(prop: &str, mode: &str, family: &str, m: &LFragMovie, r: &mut Mp4Reader<R>, exp: &[(u32, Vec<FExpect>)], anchors: &Anchors, bytes_hex: Option<String>, l: &mut Local) -> bool {
@@ -56,6 +56,18 @@ pub fn compare_pub<R: std::io::Read + std::io::Seek>(prop: &str, mode: &str, fam
         for k in ids {
             l.transitions += 2;
             let off = guard(|| r.sample_offset(*id, k));
+            if m.offsets_only {
+                if k >= 1 && k <= n {
+                    let x = &e[k as usize - 1];
+                    let want_off = anchors[&x.anchor].1 + x.rel;
+                    if !matches!(&off, Ok(Ok(o)) if *o == want_off) {
+                        ok = false;
+                        l.violations.push(Violation::new(prop, "sample_offset", case()).obs(json!({"track": id, "sample": k, "got": format!("{:?}", off.map(|r| r.map_err(|e| e.to_string())))})).exp(json!(want_off)));
+                        break;
+                    }
+                }
+                continue;
+            }
             let got = read_one(r, *id, k);
             if k >= 1 && k <= n {
                 let x = &e[k as usize - 1];
@@ -215,6 +227,9 @@ pub fn all_opts() -> Vec<Opt> {
     v
 }
 
+/// run length standing for "a track fragment without any run"
+pub const NO_TRUN: usize = usize::MAX;
+
 pub fn mk_run(track: u32, o: &Opt, n: usize, salt: u32) -> LRun {
     LRun {
         track_id: track,
@@ -226,8 +241,9 @@ pub fn mk_run(track: u32, o: &Opt, n: usize, salt: u32) -> LRun {
         data_before_moof: o.before,
         tfdt_version: o.tfdt_v,
         base_time: o.base_time + salt as u64 * 1000,
-        samples: (0..n).map(|i| LSample { size: 1 + ((i as u32 + salt) % 3), delta: 30 + i as u32 * 3 + salt, cts: if o.cts == Some(1) { -4 + i as i32 } else { 6 + i as i32 }, sync: i == 0 }).collect(),
+        samples: (0..if n == NO_TRUN { 0 } else { n }).map(|i| LSample { size: 1 + ((i as u32 + salt) % 3), delta: 30 + i as u32 * 3 + salt, cts: if o.cts == Some(1) { -4 + i as i32 } else { 6 + i as i32 }, sync: i == 0 }).collect(),
         flags_mode: (salt % 3) as u8,
+        no_trun: n == NO_TRUN,
     }
 }
 
@@ -274,7 +290,7 @@ pub fn run(tier: Tier, seed: u64) -> i32 {
     for f in 1..=fmax {
         let mut counts: Vec<Vec<usize>> = vec![vec![]];
         for _ in 0..f {
-            counts = counts.iter().flat_map(|c| (0..=rmax).map(move |n| { let mut d = c.clone(); d.push(n); d })).collect();
+            counts = counts.iter().flat_map(|c| (0..=rmax).chain(std::iter::once(NO_TRUN)).map(move |n| { let mut d = c.clone(); d.push(n); d })).collect();
         }
         let mut items = vec![];
         for o in opts.iter() {
@@ -294,11 +310,12 @@ pub fn run(tier: Tier, seed: u64) -> i32 {
                 fragments: c.iter().enumerate().map(|(i, n)| vec![mk_run(1, o, *n, i as u32)]).collect(),
                 mehd: if *trex == 0 { None } else { Some(0) },
                 large_moof: *large,
+                offsets_only: false,
             };
             judge("C09", "1:uniform_options", &m, l);
         });
     }
-    fams.push(json!({"family": "1: one track, F fragments with one shared option tuple (8 base/data-offset forms (incl. explicit base together with the default-base-is-moof flag) x frag default x data before/after moof x per-sample durations x cts none/v0/v1 x 5 tfdt forms = 960), every run-length vector, movie default 0/9, 32/64-bit moof header", "F_max": fmax, "run_max": rmax, "movies": f1}));
+    fams.push(json!({"family": "1: one track, F fragments with one shared option tuple (8 base/data-offset forms (incl. explicit base together with the default-base-is-moof flag) x frag default x data before/after moof x per-sample durations x cts none/v0/v1 x 5 tfdt forms = 960), every run-length vector (lengths 0..run_max, or a track fragment without a run), movie default 0/9, 32/64-bit moof header", "F_max": fmax, "run_max": rmax, "movies": f1}));
 
     // Family 2: one track, two fragments, options chosen independently per fragment (all pairs)
     let mut items = vec![];
@@ -312,7 +329,7 @@ pub fn run(tier: Tier, seed: u64) -> i32 {
     }
     let f2 = items.len() as u64;
     par(items, &mut l, |(a, b), l| {
-        let m = LFragMovie { movie_ts: 600, tracks: vec![LFragTrack { id: 1, codec: Codec::Aac, timescale: 48000, trex_default_duration: 9 }], fragments: vec![vec![mk_run(1, a, 2, 0)], vec![mk_run(1, b, 2, 1)]], mehd: Some(1), large_moof: false };
+        let m = LFragMovie { movie_ts: 600, tracks: vec![LFragTrack { id: 1, codec: Codec::Aac, timescale: 48000, trex_default_duration: 9 }], fragments: vec![vec![mk_run(1, a, 2, 0)], vec![mk_run(1, b, 2, 1)]], mehd: Some(1), large_moof: false, offsets_only: false };
         judge("C09", "2:option_pairs", &m, l);
     });
     fams.push(json!({"family": "2: one track, two fragments, option tuples chosen independently (all pairs in thorough; the (i+j) mod 3 = 0 third in quick — a complete enumeration of that sub-lattice, not a sample)", "movies": f2}));
@@ -353,10 +370,38 @@ pub fn run(tier: Tier, seed: u64) -> i32 {
                 .collect(),
             mehd: None,
             large_moof: false,
+                offsets_only: false,
         };
         judge("C09", "3:two_tracks", &m, l);
     });
     fams.push(json!({"family": "3: two tracks; every sequence of fragment shapes [A],[B],[A,B],[B,A]; 40 option tuples; movie-level defaults (9,9),(9,4),(0,0)", "F": fm, "movies": f3}));
+
+    // Family 4: per-sample sizes whose running sums pass 2^32 inside a run: counts and offsets only
+    let n4 = if th { 5 } else { 4 };
+    let mut items = vec![];
+    let small4: Vec<Opt> = opts.iter().filter(|o| o.tfdt_v == 0 && o.base_time == 0 && o.cts.is_none() && !o.psd).cloned().collect();
+    for n in 1..=n4 {
+        let mut vs: Vec<Vec<u32>> = vec![vec![]];
+        for _ in 0..n {
+            vs = vs.iter().flat_map(|v| [0x9000_0000u32, 1, u32::MAX].iter().map(move |x| { let mut d = v.clone(); d.push(*x); d })).collect();
+        }
+        for v in vs {
+            for o in small4.iter() {
+                items.push((v.clone(), *o));
+            }
+        }
+    }
+    let f4 = items.len() as u64;
+    par(items, &mut l, |(sizes, o), l| {
+        let mut r0 = mk_run(1, o, sizes.len(), 0);
+        for (s, z) in r0.samples.iter_mut().zip(sizes.iter()) {
+            s.size = *z;
+        }
+        let r1 = mk_run(1, o, 2, 1);
+        let m = LFragMovie { movie_ts: 1000, tracks: vec![LFragTrack { id: 1, codec: Codec::Avc, timescale: 12800, trex_default_duration: 9 }], fragments: vec![vec![r0], vec![r1]], mehd: None, large_moof: false, offsets_only: true };
+        judge("C09", "4:sizes_summing_past_4GiB", &m, l);
+    });
+    fams.push(json!({"family": "4: one run with sizes in {0x90000000, 1, 0xffffffff}^N followed by a second fragment; 32 base/data-offset/default/placement tuples; sample_count and sample_offset only (payload not materialised)", "n_max": n4, "movies": f4}));
 
     ev.set("evaluations", json!(l.evaluations));
     ev.set("states", json!(l.evaluations));
@@ -372,7 +417,7 @@ pub fn run(tier: Tier, seed: u64) -> i32 {
         samples.push(json!("(none)"));
     }
     ev.set("samples", Value::Array(samples));
-    ev.assume("inputs stay inside the statement's premise: per-sample sizes present, tfdt present; one trun per traf; 'neither base flag' is judged by the statement's formula (start of the enclosing moof)");
+    ev.assume("inputs stay inside the statement's premise: per-sample sizes present, tfdt present; at most one trun per traf (a traf without any run contributes no samples); 'neither base flag' is judged by the statement's formula (start of the enclosing moof)");
     let v = std::mem::take(&mut l.violations);
     v.drain_into(&rep);
     conclude(&ev, &rep)
